@@ -30,3 +30,46 @@ M("emp-last-only", "C16", "vopy/models/empirical_mean_var.py", "[self.design_sam
 M("emp-var-threshold", "C16", "vopy/models/empirical_mean_var.py", "if len(design) > 1", "if len(design) > 2")
 M("emp-clear-noop", "C16", "vopy/models/empirical_mean_var.py", "        self.design_samples = [np.empty((0, self.output_dim)) for _ in range(self.design_count)]", "        if not hasattr(self, 'design_samples'):\n            self.design_samples = [np.empty((0, self.output_dim)) for _ in range(self.design_count)]")
 M("emp-partial-add-before-reject", "C16", "vopy/models/empirical_mean_var.py", "        if max(indices) >= self.design_count:\n            raise ValueError(\"Design index out of bounds.\")\n\n        for idx, y in zip(indices, Y_t):", "        for idx, y in zip(indices, Y_t):\n            if idx >= self.design_count:\n                raise ValueError(\"Design index out of bounds.\")")
+# ---- C07
+M("opt-argmin", "C07", "vopy/acquisition/acquisition.py", "best_idx = np.argmax(acq_values)", "best_idx = np.argmin(acq_values)")
+M("opt-not-removed", "C07", "vopy/acquisition/acquisition.py", "choices = np.concatenate([choices[:best_idx], choices[best_idx + 1 :]])", "choices = np.concatenate([choices[:best_idx], choices[best_idx:]]) if best_idx == 0 else np.concatenate([choices[:best_idx], choices[best_idx + 1 :]])")
+M("dec-opt-order", "C07", "vopy/acquisition/acquisition.py", "indices = indices[np.argsort(acq_values[indices])[::-1]]", "indices = indices[np.argsort(acq_values[indices])]")
+M("dec-opt-index-not-restored", "C07", "vopy/acquisition/acquisition.py", "    acq.evaluation_index = saved_eval_i\n", "")
+M("vogp-acq-all-designs", "C07", "vopy/algorithms/vogp.py", "active_pts = self.design_space.points[list(W)]", "active_pts = self.design_space.points")
+M("vogp-y-misaligned", "C07", "vopy/algorithms/vogp.py", "self.model.add_sample(candidate_list, observations)", "self.model.add_sample(candidate_list, observations[::-1])")
+M("maxdiag-stale-region", "C07", "vopy/acquisition/acquisition.py", "value[idx] = self.design_space.confidence_regions[design_i].diagonal()", "value[idx] = self.design_space.confidence_regions[indices[0]].diagonal() if idx == len(indices) - 1 and len(indices) > 2 else self.design_space.confidence_regions[design_i].diagonal()")
+# ---- C06
+M("vogp-no-early-return", "C06", "vopy/algorithms/vogp.py", "        if len(self.S) == 0:\n            return True\n\n        round_str", "        round_str")
+M("partial-budget-gt", "C06", "vopy/algorithms/paveba_partial_gp.py", "return len(self.S) == 0 or self.total_cost >= self.cost_budget", "return len(self.S) == 0 or self.total_cost > self.cost_budget")
+M("pavebagp-sample-count-batch", "C06", "vopy/algorithms/paveba_gp.py", "self.sample_count += len(candidate_list)", "self.sample_count += self.batch_size")
+M("partial-cost-by-design", "C06", "vopy/algorithms/paveba_partial_gp.py", "self.total_cost += np.sum(self.costs[eval_indices])", "self.total_cost += np.sum(self.costs[eval_indices * 0])")
+M("decoupled-round-not-incremented", "C06", "vopy/algorithms/decoupled.py", "        self.round += 1\n", "        self.round += 0\n")
+M("naive-off-by-one", "C06", "vopy/algorithms/naive_elimination.py", "        return self.round == self.L\n", "        return self.round >= self.L - 1\n")
+M("paveba-useful-not-subset", "C06", "vopy/algorithms/paveba.py", "                    self.U.add(pt)\n                    break", "                    self.U.add(pt_prime)\n                    break")
+M("epal-P-readmits", "C06", "vopy/algorithms/epal.py", "        for pt in to_be_discarded:\n            self.S.remove(pt)", "        for pt in to_be_discarded:\n            self.S.remove(pt)\n            if self.round % 3 == 2:\n                self.P.add(pt)")
+# ---- C02 / C03
+M("paveba-discard-args-swapped", "C02", "vopy/algorithms/paveba.py", "if confidence_region_is_dominated(self.order, pt_conf, pt_p_conf, 0):", "if confidence_region_is_dominated(self.order, pt_p_conf, pt_conf, 0):")
+M("pavebagp-discard-slack", "C02", "vopy/algorithms/paveba_gp.py", "if confidence_region_is_dominated(self.order, pt_conf, pt_p_conf, 0):", "if confidence_region_is_dominated(self.order, pt_conf, pt_p_conf, self.epsilon):")
+M("vogp-witness-from-all", "C02", "vopy/algorithms/vogp.py", "            for pt_prime in pessimistic_set:", "            for pt_prime in self.S.union(self.P) - {pt}:")
+M("vogp-discard-pessimistic-too", "C02", "vopy/algorithms/vogp.py", "difference = self.S.difference(pessimistic_set)", "difference = set(self.S)")
+M("vogp-discard-no-slack", "C02", "vopy/algorithms/vogp.py", "if confidence_region_is_dominated(self.order, pt_conf, pt_p_conf, self.u_star_eps):", "if confidence_region_is_dominated(self.order, pt_conf, pt_p_conf, 0 * self.u_star_eps):")
+M("epal-discard-neg-slack", "C02", "vopy/algorithms/epal.py", "if confidence_region_is_dominated(self.order, pt_conf, pt_p_conf, self.epsilon):", "if confidence_region_is_dominated(self.order, pt_conf, pt_p_conf, -self.epsilon):")
+M("auer-discard-ge", "C02", "vopy/algorithms/auer.py", "if np.all(self.small_m(pt_conf.center, pt_p_conf.center) > beta):", "if np.any(self.small_m(pt_conf.center, pt_p_conf.center) > beta):")
+M("auer-discard-own-width-only", "C02", "vopy/algorithms/auer.py", "                beta = pt_beta + pt_p_beta\n                if np.all(self.small_m", "                beta = pt_beta + pt_beta\n                if np.all(self.small_m")
+M("paveba-cover-args-swapped", "C03", "vopy/algorithms/paveba.py", "                if confidence_region_is_covered(\n                    self.order, pt_conf, pt_p_conf, self.cone_alpha_eps\n                ):\n                    break", "                if confidence_region_is_covered(\n                    self.order, pt_p_conf, pt_conf, self.cone_alpha_eps\n                ):\n                    break")
+M("pavebagp-cover-no-slack", "C03", "vopy/algorithms/paveba_gp.py", "        self.cone_alpha_eps = self.cone_alpha * self.epsilon", "        self.cone_alpha_eps = self.cone_alpha * self.epsilon * 0")
+M("partial-useful-frozen", "C03", "vopy/algorithms/paveba_partial_gp.py", "    def useful_updating(self):\n        \"\"\"\n        Identify the designs that are decided to be Pareto, that would help with decisions of\n        other designs.\n        \"\"\"\n        self.U = set()", "    def useful_updating(self):\n        \"\"\"\n        Identify the designs that are decided to be Pareto, that would help with decisions of\n        other designs.\n        \"\"\"\n        self.U = set(self.U)")
+M("vogp-cover-S-only", "C03", "vopy/algorithms/vogp.py", "    def epsiloncovering(self):\n        \"\"\"\n        Identify and remove designs from `S` that are not covered by the confidence region of\n        other designs, adding them to `P` as Pareto-optimal.\n        \"\"\"\n        W = self.S.union(self.P)", "    def epsiloncovering(self):\n        \"\"\"\n        Identify and remove designs from `S` that are not covered by the confidence region of\n        other designs, adding them to `P` as Pareto-optimal.\n        \"\"\"\n        W = set(self.S)")
+M("auer-holdback-strict", "C03", "vopy/algorithms/auer.py", "if np.all(self.big_m(pt_conf.center, p1_pt_conf.center) <= beta):", "if np.all(self.big_m(pt_conf.center, p1_pt_conf.center) <= 0 * beta):")
+M("auer-P1-eps-dropped", "C03", "vopy/algorithms/auer.py", "return max(0, np.max((i + self.epsilon) - j))", "return max(0, np.max(i - j))")
+# ---- C01 / C05
+M("paveba-discard-against-P", "C01", "vopy/algorithms/paveba.py", "        A = self.S.union(self.U)\n\n        to_be_discarded = []", "        A = self.S.union(self.P)\n\n        to_be_discarded = []")
+M("paveba-cover-slack-negated", "C01", "vopy/algorithms/paveba.py", "self.cone_alpha_eps = self.cone_alpha * self.epsilon", "self.cone_alpha_eps = -self.cone_alpha * self.epsilon")
+M("paveba-cover-slack-doubled", "C01", "vopy/algorithms/paveba.py", "self.cone_alpha_eps = self.cone_alpha * self.epsilon", "self.cone_alpha_eps = 2 * self.cone_alpha * self.epsilon")
+M("auer-bigm-sign", "C01", "vopy/algorithms/auer.py", "return max(0, np.max((i + self.epsilon) - j))", "return max(0, np.max((i + 3 * self.epsilon) - j))")
+M("vogp-ustar-replaced", "C05", "vopy/algorithms/vogp.py", "self.u_star_eps = self.u_star * epsilon", "self.u_star_eps = self.u_star * epsilon * 2.5")
+M("vogp-discard-double-slack", "C05", "vopy/algorithms/vogp.py", "if confidence_region_is_dominated(self.order, pt_conf, pt_p_conf, self.u_star_eps):", "if confidence_region_is_dominated(self.order, pt_conf, pt_p_conf, 3 * self.u_star_eps):")
+M("epal-cover-S-only", "C05", "vopy/algorithms/epal.py", "        W = self.S.union(self.P)\n\n        new_pareto_pts = []", "        W = set(self.S)\n\n        new_pareto_pts = []")
+M("pavebagp-acq-on-S-only", "C07", "vopy/algorithms/paveba_gp.py", "        A = self.S.union(self.U)\n        acq = SumVarianceAcquisition(self.model)", "        A = set(self.S)\n        acq = SumVarianceAcquisition(self.model)")
+M("partial-cost-ignored", "C07", "vopy/acquisition/acquisition.py", "            value = value / self.costs[self.evaluation_index]\n        return value\n\n\nclass ThompsonEntropy", "            value = value / 1.0\n        return value\n\n\nclass ThompsonEntropy")
+M("paveba-evaluates-S-only", "C07", "vopy/algorithms/paveba.py", "        A = self.S.union(self.U)\n        active_pts = self.design_space.points[list(A)]\n\n        observations", "        A = set(self.S)\n        active_pts = self.design_space.points[list(A)]\n\n        observations")
